@@ -115,7 +115,7 @@ class Engine(CoreMixin, ExprMixin, CallMixin, StmtMixin, BuiltinMixin):
         is_clsm = "classmethod" in decos
         env = {}
         for i, p in enumerate(params):
-            if i == 0 and fi.cls is not None and not is_static:
+            if i == 0 and fi.cls is not None and not is_static and fi.direct_method:
                 if is_clsm:
                     env[p] = PyC(cls)
                     continue
@@ -159,6 +159,24 @@ class Engine(CoreMixin, ExprMixin, CallMixin, StmtMixin, BuiltinMixin):
             self.input_terms[p.arg] = v.t
         if a.kwarg:
             raise OutOfSubset("**kwargs parameter")
+        # free variables of a nested function: parameters of the enclosing functions are symbolic inputs
+        for outer in reversed(fi.enclosing):
+            oa = outer.args
+            onames = [p.arg for p in oa.posonlyargs + oa.args + oa.kwonlyargs]
+            for j, p in enumerate(onames):
+                if p in env:
+                    continue
+                if j == 0 and fi.cls is not None and p in ("self", "cls"):
+                    v = Val(self.declare("in_" + p), kind="obj", cls=cls, origin=p)
+                    st.assume(f"(and (k_obj {v.t}) (= (class_of (oid {v.t})) {self.ctab.cid(cls)}) (>= (oid {v.t}) 0) (< (oid {v.t}) 1000000))")
+                    self.exact_class[v.t] = cls
+                else:
+                    kind = contract.kinds.get(p)
+                    v = Val(self.declare("in_" + p), kind=kind, origin=p)
+                    if kind:
+                        self.entry_kind_checks.append((p, (kind, None), v.t))
+                env[p] = v
+                self.input_terms[p] = v.t
         st.env = env
         return st
 
@@ -266,8 +284,8 @@ class Engine(CoreMixin, ExprMixin, CallMixin, StmtMixin, BuiltinMixin):
         def run(o):
             text = self.vc_text(o)
             if o.expect == "sat":
-                r = smt.solve_text(text, timeout=min(timeout, 5.0), keep_dir=keep_dir, name=o.name,
-                                   order=["z3-5.1.0", "z3-4.8.12"])
+                r = smt.solve_text(text, timeout=2.0, keep_dir=keep_dir, name=o.name,
+                                   order=["z3-5.1.0"], quick_first=False)
             else:
                 r = smt.solve_text(text, timeout=timeout, keep_dir=keep_dir, name=o.name)
             o.result = r
